@@ -7,7 +7,8 @@ META = {
     'level': 'model_checking',
     'technique': 'TLA+ spec Geno.tla: declarative valid-DNA set, the space_size recurrences and the next_dna odometer as '
                  'a transition system, checked exhaustively by TLC for every spec of a grammar-generated universe '
-                 '(Increasing, Exact: visited = Valid and |visited| = Size at termination, Faithful); then '
+                 '(Increasing, Exact: visited = Valid and |visited| = Size at termination, Faithful); a transcription of validate is '
+                 'searched by TLC for accepted invalid inputs (GenoValidate.tla: intended rules have no gap, today\'s rules do); then '
                  'observed-relation law checking: iter_dna / space_size / validate / DNA(spec=) / random_dna / Sweeping '
                  'are run on the real pg.geno objects for every spec of the universe plus one-step corruptions generated '
                  'by TLC, and TLC (GenoLaws.tla) evaluates the set equalities and acceptance laws on the observations',
@@ -138,6 +139,19 @@ def run(chk):
   if not r.ok:
     raise tlc.TLCError(f'{cfg["model"]}: {r.violated} violated in the model (specification defect):\n' + r.out[-3000:])
   chk.require(r.distinct > 1000, f'vacuous: odometer model explored only {r.distinct} states')
+  # 1b. design-level search on the transcription of validate: the intended acceptor has no gap to Valid on the
+  # one-step corruptions; today's rules (AsCoded) must yield TLC's counter-example (negative index / stray value)
+  rv = tlc.run('GenoValidate', 'C11_validate_intended.cfg', timeout=900)
+  chk.add_tlc(rv)
+  if not rv.ok:
+    raise tlc.TLCError(f'C11_validate_intended.cfg: {rv.violated} violated (specification defect):\n' + rv.out[-3000:])
+  ra = tlc.run('GenoValidate', 'C11_validate_ascoded.cfg', timeout=900, allow_violation=True)
+  chk.add_tlc(ra, count_states=False)
+  chk.notes['validate_as_coded_model'] = dict(ra.summary(), note='AsCoded = TRUE transcribes today\'s validate; TLC is '
+                                              'expected to violate NoGap (an invalid one-step corruption is accepted); '
+                                              'the observed-relation check below meets the same inputs on the real code')
+  chk.require((not ra.ok) and ra.violated == 'NoGap',
+              'the as-coded validate model no longer violates NoGap: the model lost its sensitivity')
   # 2. universe + probes out of TLC
   entries, r1 = tlc.export_json('GenoExport', cfg['export'], env={'SALT': str(chk.seed)}, timeout=900)
   inf_entries, r2 = tlc.export_json('GenoExport', cfg['export_inf'], env={'SALT': str(chk.seed)}, timeout=900)
